@@ -1319,6 +1319,24 @@ def gen_rpc(runner, tier, seed):
     for ch in chunks(flows, 500):
         s.reset()
         tcp_batch(s, ch)
+    # several calls one after the other on one connection (each its own record), reply messages in between
+    s = runner.session(cfg_plain(), "rpc successive records on one flow")
+    flows = []
+    for i in range(20 if tier == "quick" else 300):
+        segs = []
+        for k in range(r.choice([2, 2, 3, 4])):
+            v, pr = r.choice([(2, 3), (4, 0), (3, 4), (2, 4), (9, 1), (2, 77), (4, 3)])
+            prog = r.choice([100000, 100000, 100003])
+            q = rpc_call(xid(), prog, v, pr, args=struct.pack(">IIII", 100003, 3, 6, 0) if pr == 3 else b"", tcp=True)
+            if k and r.random() < 0.2:
+                q = rpc_call(xid(), mtype=1, tcp=True)                      # a reply message where a call is expected
+            if r.random() < 0.3:
+                c = r.randrange(1, len(q))
+                segs += [q[:c], q[c:]]
+            else:
+                segs.append(q)
+        flows.append((r.choice([peer4(), peer6()]), 23000 + i, r.choice([111, 2049, r.randrange(65536)]), r.randrange(1 << 32), segs))
+    tcp_batch(s, flows)
     # framing and transport crossed: record-marked calls in datagrams, unframed calls as first TCP segment
     s = runner.session(cfg_plain(), "rpc framing crossed with transport")
     fr, flows = [], []
